@@ -602,7 +602,11 @@ func (r *runner) ladderCycle(rng *sim.Rng, c cfg) {
 	amt := []int64{900, 1500, 3000, 1000}[rng.Intn(4)]
 	nt := r.w.Pars[app-1].MaxTicks
 	hi := tickOf(L * int64(102+rng.Intn(5)) / 100)
-	r.step("MMOrder", M{"u": owner, "app": app, "pair": pair, "sellAmt": int64(0), "minSell": int64(0), "maxSell": int64(0),
+	sellAmt, loS, hiS := int64(0), int64(0), int64(0)
+	if rng.Intn(2) == 0 { // two-sided: the sell ticks follow the buy ticks in the maker's order index
+		sellAmt, loS, hiS = amt, tickOf(L*107/100), tickOf(L*109/100)
+	}
+	r.step("MMOrder", M{"u": owner, "app": app, "pair": pair, "sellAmt": sellAmt, "minSell": loS, "maxSell": hiS,
 		"buyAmt": amt, "minBuy": tickOf(L * 93 / 100), "maxBuy": hi, "life": life})
 	if rng.Intn(2) == 0 {
 		r.batchOf(app)
@@ -619,6 +623,15 @@ func (r *runner) ladderCycle(rng *sim.Rng, c cfg) {
 	r.step("LimitOrder", M{"u": other, "app": app, "pair": pair, "dir": "S", "price": sp, "amt": q, "offer": q + q/5 + 1, "life": life})
 	r.batchOf(app)
 	r.block(6)
+	// the completed top tick is deleted by now: the maker's index has a hole in front of the remaining ticks
+	switch rng.Intn(3) {
+	case 0:
+		r.step("CancelMM", M{"u": owner, "app": app, "pair": pair})
+	case 1:
+		L2 := r.centre(app, pair)
+		r.step("MMOrder", M{"u": owner, "app": app, "pair": pair, "sellAmt": int64(0), "minSell": int64(0), "maxSell": int64(0),
+			"buyAmt": amt / 2, "minBuy": tickOf(L2 * 94 / 100), "maxBuy": tickOf(L2 * 97 / 100), "life": life})
+	}
 }
 
 // marketCycle: market orders as first-class citizens. With a last price in the pair, market buy and sell orders
@@ -703,69 +716,81 @@ func (r *runner) marketCycle(rng *sim.Rng, c cfg) {
 	}
 }
 
-// farmCycle: the pool id != pair id axis and the top-up of an ACTIVE farm position: a farmer whose first farm has
-// matured farms again in the same pool (preferably a pool whose id differs from its pair's id, e.g. the second pool
-// of a pair), the second entry matures into the existing active record, then the position is partly unfarmed.
+// farmCycle: the id-exchange axes of farming (pool id != pair id, pool id != app id) and the life of farm positions
+// with several farmers in one pool: staggered farm times (one farmer's entry matures while the other's stays queued,
+// in both role assignments), top-up of an ACTIVE position, unfarming an active position down to exactly zero and
+// partly, unfarm-and-withdraw.
 func (r *runner) farmCycle(rng *sim.Rng, c cfg) {
 	if !c.pools {
 		return
 	}
 	app := c.apps[rng.Intn(len(c.apps))]
-	pick := func() (M, bool) {
-		var any M
+	pick := func() (M, int) {
+		var best M
+		score := -1
 		for _, p := range r.st["pools"].([]M) {
 			if p["app"].(int64) != app || p["disabled"].(bool) {
 				continue
 			}
+			sc := 0
 			if p["id"].(int64) != p["pair"].(int64) {
-				return p, true
+				sc++
 			}
-			any = p
+			if p["id"].(int64) != app {
+				sc++
+			}
+			if sc > score {
+				best, score = p, sc
+			}
 		}
-		return any, any != nil
+		return best, score
 	}
-	pl, ok := pick()
-	if (!ok || pl["id"].(int64) == pl["pair"].(int64)) && r.st["lastPool"].([]int64)[app-1] < MaxPool {
+	pl, score := pick()
+	for k := 0; k < 2 && score < 2 && r.st["lastPool"].([]int64)[app-1] < MaxPool; k++ {
 		prs := c.pairsOf[app]
 		pair := prs[rng.Intn(len(prs))]
 		ctr := r.centre(app, pair)
 		x := int64(20000)
 		r.step("CreateRangedPool", M{"u": Users[rng.Intn(3)], "app": app, "pair": pair, "x": x, "y": x * PS / ctr,
 			"min": tickOf(ctr * 8 / 10), "max": tickOf(ctr * 12 / 10), "init": tickOf(ctr)})
-		pl, ok = pick()
+		pl, score = pick()
 	}
-	if !ok {
+	if score < 0 {
 		return
 	}
 	pool, pair := pl["id"].(int64), pl["pair"].(int64)
 	ctr := r.centre(app, pair)
-	u := Users[rng.Intn(3)]
-	dep := func() {
+	us := []string{"u1", "u2", "u3"}
+	rng.Shuffle(len(us), func(i, j int) { us[i], us[j] = us[j], us[i] })
+	f1, f2 := us[0], us[1]
+	dep := func(u string) {
 		x := []int64{1000, 3000, 5000}[rng.Intn(3)]
 		r.step("DepositAndFarm", M{"u": u, "app": app, "pool": pool, "x": x, "y": x * PS / ctr})
 	}
-	dep()
-	if rng.Intn(2) == 0 {
-		if pc := r.balOf(u, fmt.Sprintf("pool%d-%d", app, pool)); pc > 1 {
-			r.step("Farm", M{"u": u, "app": app, "pool": pool, "amt": pc / 2})
-		}
+	half := int64(43300) // a little more than half the queue duration
+	stagger := func(a, b string) {
+		dep(a)
+		r.block(half)
+		dep(b)
+		r.block(half)
+		r.batchOf(app) // a's entry matures, b's stays queued
+		r.block(half)
+		r.batchOf(app) // b's entry matures
 	}
-	r.block(90000)
-	r.batchOf(app) // the queue matures: the farmer is active
-	dep()          // top-up of an active position
-	if rng.Intn(2) == 0 {
-		r.block(3600)
-		dep() // two queue entries of different age
+	stagger(f1, f2) // both become active
+	stagger(f2, f1) // top-ups of active positions, roles exchanged
+	if t := r.farmedBy(f1, app, pool); t > 0 {
+		r.step("Unfarm", M{"u": f1, "app": app, "pool": pool, "amt": t}) // the active position goes to exactly zero
 	}
-	r.block(90000)
-	r.batchOf(app)
-	tot := r.farmedBy(u, app, pool)
-	if tot > 2 {
-		r.step("Unfarm", M{"u": u, "app": app, "pool": pool, "amt": tot * 2 / 3})
+	if t := r.farmedBy(f2, app, pool); t > 2 {
+		r.step("Unfarm", M{"u": f2, "app": app, "pool": pool, "amt": t * 2 / 3})
 		if rng.Intn(2) == 0 {
-			r.step("UnfarmAndWithdraw", M{"u": u, "app": app, "pool": pool, "amt": r.farmedBy(u, app, pool) / 2})
+			r.step("UnfarmAndWithdraw", M{"u": f2, "app": app, "pool": pool, "amt": r.farmedBy(f2, app, pool)})
 		}
 	}
+	dep(f1) // farming again after the position was closed
+	r.block(half * 2)
+	r.batchOf(app)
 }
 
 // cancelAllCycle: one user has an older order in the higher-id pair and a fresh order (current batch) in the
